@@ -384,7 +384,7 @@ impl ExpressionTrait for Expression {
             Self::BinaryExpression(l_op, _, l_right, _) => match &l_right.element {
                 Self::BinaryExpression(r_op, _, _, _) => {
                     l_op.is_arithmetic() && (r_op.is_relational() || r_op.is_binary())
-                        || l_op.is_relational() && r_op.is_binary()
+                        || l_op.is_relational() && (r_op.is_relational() || r_op.is_binary())
                         || *l_op == Operator::And && *r_op == Operator::Or
                         || Self::flip_multiply_plus(l_op, r_op)
                         || Self::flip_plus_minus(l_op, r_op)
